@@ -237,12 +237,18 @@ class Type4Tag(nfc.tag.Tag):
                 log.debug("failed to select %s", hexlify(fid).decode())
 
         def _read_binary(self, offset, size):
+            if offset > 0xFFFF:
+                # P1-P2 can not address beyond 64 KiB
+                raise Type4TagCommandError(0x6A86)
             (p1, p2) = pack(">H", offset)
             max_data = min(self._max_le, size, 256)
             log.debug("read_binary from %d to %d", offset, offset + max_data)
             return self.tag.send_apdu(0, 0xB0, p1, p2, mrl=max_data)
 
         def _update_binary(self, offset, data):
+            if offset > 0xFFFF:
+                # P1-P2 can not address beyond 64 KiB
+                raise Type4TagCommandError(0x6A86)
             (p1, p2) = pack(">H", offset)
             max_data = min(self._max_lc, len(data), 255)
             log.debug("update_binary from %d to %d", offset, offset + max_data)
